@@ -103,46 +103,8 @@ def pinned_cases():
 
 
 def make_cert(sans, peer_addr, nodeid):
-    ''' Self-signed EC certificate with the given SAN kinds (DER), or None. '''
-    if sans is None:
-        return None
-    key = (tuple(sans), peer_addr, nodeid)
-    if key in _cert_cache:
-        return _cert_cache[key]
-    import datetime
-    import ipaddress
-    from cryptography import x509
-    from cryptography.hazmat.primitives import hashes, serialization
-    from cryptography.hazmat.primitives.asymmetric import ec
-    from cryptography.x509.oid import NameOID
-    if 'key' not in _cert_cache:
-        _cert_cache['key'] = ec.generate_private_key(ec.SECP256R1())
-    pkey = _cert_cache['key']
-    names = []
-    for kind in sans:
-        if kind == 'ip-match':
-            names.append(x509.IPAddress(ipaddress.ip_address(peer_addr)))
-        elif kind == 'ip-other':
-            names.append(x509.IPAddress(ipaddress.ip_address('192.0.2.99')))
-        elif kind == 'dns-a':
-            names.append(x509.DNSName('node.example'))
-        elif kind == 'dns-b':
-            names.append(x509.DNSName('other.example'))
-        elif kind == 'uri-match':
-            names.append(x509.UniformResourceIdentifier(nodeid or 'dtn://unnamed/'))
-        elif kind == 'uri-other':
-            names.append(x509.UniformResourceIdentifier('dtn://somebody-else/'))
-        elif kind == 'uri-other2':
-            names.append(x509.UniformResourceIdentifier('ipn:99.0'))
-    subject = x509.Name([x509.NameAttribute(NameOID.COMMON_NAME, 'peer')])
-    builder = (x509.CertificateBuilder().subject_name(subject).issuer_name(subject).public_key(pkey.public_key())
-               .serial_number(1000 + len(_cert_cache))
-               .not_valid_before(datetime.datetime(2020, 1, 1)).not_valid_after(datetime.datetime(2040, 1, 1)))
-    if names:
-        builder = builder.add_extension(x509.SubjectAlternativeName(names), critical=False)
-    der = builder.sign(pkey, hashes.SHA256()).public_bytes(serialization.Encoding.DER)
-    _cert_cache[key] = der
-    return der
+    from vlib import tcpcl_world as tw
+    return tw.make_cert(sans, peer_addr, nodeid)
 
 
 def policy(case, peer_addr):
